@@ -192,7 +192,9 @@ func jwkIsPrivateKey(jwk jwk.Key) bool {
 // HTU returns the htu claim of the DPoP token
 func (t DPoP) HTU() string {
 	if v, ok := t.Token.Get(HTUKey); ok {
-		return v.(string)
+		// the claim can be of any JSON type
+		s, _ := v.(string)
+		return s
 	}
 	return ""
 }
@@ -200,7 +202,9 @@ func (t DPoP) HTU() string {
 // HTM returns the htm claim of the DPoP token
 func (t DPoP) HTM() string {
 	if v, ok := t.Token.Get(HTMKey); ok {
-		return v.(string)
+		// the claim can be of any JSON type
+		s, _ := v.(string)
+		return s
 	}
 	return ""
 }
@@ -220,8 +224,14 @@ func (t DPoP) Match(jkt string, method string, url string) (bool, error) {
 	if method != t.HTM() {
 		return false, fmt.Errorf("method mismatch, token: %s, given: %s", t.HTM(), method)
 	}
-	urlLeft := strip(t.HTU())
-	urlRight := strip(url)
+	urlLeft, err := strip(t.HTU())
+	if err != nil {
+		return false, fmt.Errorf("invalid htu claim: %w", err)
+	}
+	urlRight, err := strip(url)
+	if err != nil {
+		return false, fmt.Errorf("invalid url: %w", err)
+	}
 	if urlLeft != urlRight {
 		return false, fmt.Errorf("url mismatch, token: %s, given: %s", urlLeft, urlRight)
 	}
@@ -229,13 +239,16 @@ func (t DPoP) Match(jkt string, method string, url string) (bool, error) {
 	return true, nil
 }
 
-func strip(raw string) string {
-	url, _ := url.Parse(raw)
+func strip(raw string) (string, error) {
+	url, err := url.Parse(raw)
+	if err != nil {
+		return "", err
+	}
 	url.Scheme = "https"
 	url.Host = strings.Split(url.Host, ":")[0]
 	url.RawQuery = ""
 	url.Fragment = ""
-	return url.String()
+	return url.String(), nil
 }
 
 func (t DPoP) MarshalJSON() ([]byte, error) {
